@@ -673,10 +673,10 @@ def main():
             if tuple(info["want"]) != tuple(case["out"]):
                 accepted_other_convention += 1
             continue
-        if info["k"] == 0:
-            where = "offset0"
-        elif info["fam"] == "degen":
+        if info["fam"] == "degen":
             where = "degenerate-weights"
+        elif info["k"] == 0:
+            where = "offset0"
         elif info["fam"] == "tol":
             where = "tol-sum-below-one" if sum(info["a"]) < info["Q"] else "tol-sum-above-one"
         else:
